@@ -150,6 +150,11 @@ fn buffer_of(s: &Snap, t: &Template) -> Option<Vec<u8>> {
 
 /// One hostile exchange + the C11 oracle. `before`/`after` are hook snapshots.
 pub fn judge(t: &Template, x: &Exchange, before: &Snap, after: &Snap) -> Result<&'static str, (String, String)> {
+    judge_with(t, x, before, after, HOOKS)
+}
+
+/// `buffer_known`: the length of the upload buffer before the request is known (hook snapshot, or a fresh server).
+pub fn judge_with(t: &Template, x: &Exchange, before: &Snap, after: &Snap, buffer_known: bool) -> Result<&'static str, (String, String)> {
     if let Some((stage, pn)) = &x.panic {
         return Err((format!("C11/panic@{}", pn.site()), format!("{:?} panicked: {}", stage, pn.message)));
     }
@@ -185,7 +190,7 @@ pub fn judge(t: &Template, x: &Exchange, before: &Snap, after: &Snap) -> Result<
     // it must be rejected and leave the buffered data unchanged
     if let Blk::Val(num, _, szx) = &t.b1 {
         let offset = *num as usize * rb::size(*szx);
-        if offset > lb + 16 * 1024 {
+        if buffer_known && offset > lb + 16 * 1024 {
             let rejected = matches!(&x.error, Some((Stage::InterceptRequest, _, _, _)));
             if !rejected {
                 return Err((
@@ -258,7 +263,8 @@ fn depth1(ctx: &Ctx, rep: &mut Report) {
             let x = srv.exchange(1, &t.bytes(40_000), &|_c| app_reply(kind));
             let after = srv.snapshot();
             rep.visit(&after);
-            match judge(&t, &x, &before, &after) {
+            // (a fresh server: the upload buffer is known to be empty even when no hook shows it)
+            match judge_with(&t, &x, &before, &after, true) {
                 Ok(class) => {
                     rep.count(class);
                     rep.bucket(&(class, mtype, matches!(t.b1, Blk::None), matches!(t.b2, Blk::None), bloat, payload, budget.min(70), kind));
@@ -373,7 +379,7 @@ fn deep(ctx: &Ctx, rep: &mut Report) {
     let ts = bfs_templates();
     let kinds: [u64; 2] = [0, 4];
     let nacts = ts.len() * kinds.len();
-    let depth = if ctx.thorough() { 5 } else { 3 };
+    let depth = if ctx.thorough() && HOOKS { 5 } else { 3 }; // without hooks there is no state merging: depth 3 only
     for budget in [21usize, 32, 64, 1152] {
         let name = format!("bfs-colliding-requests-budget{}", budget);
         let st = bfs::run(
@@ -402,7 +408,7 @@ fn deep(ctx: &Ctx, rep: &mut Report) {
                         Err((sig, what)) => Step::Violated(sig, what, Json::obj().set("budget", budget).set("request", t.json()).set("app_reply", kind)),
                     }
                 },
-                key: &|s: &(Server, u16)| s.0.snapshot(),
+                key: &|s: &(Server, u16)| (s.0.snapshot(), if HOOKS { 0 } else { s.0.trace }),
                 project: None,
                 label: &|a| format!("{:?}/{:?}/payload{}/method{} reply{}", ts[a / 2].b1, ts[a / 2].b2, ts[a / 2].payload, ts[a / 2].method, kinds[a % 2]),
             },
